@@ -116,7 +116,7 @@ printf("%d) 0x%02x\n", type, value);
   memory->low_address = start;
   memory->high_address = end;
 
-  return start;
+  return 0;
 }
 
 
